@@ -17,7 +17,9 @@ CHECKS["C20"] = dict(
     assumptions=["go/ssa translation", "z3 bit-vectors; cvc5/z3 floating point", "float64->uint32 as go1.24/amd64"],
 )
 
-NOT_APPLICABLE = {}
+NOT_APPLICABLE = {
+    "C10": "Data-race freedom is a property of pre-emptive schedules over plain memory accesses under the Go memory model. The engine executes goroutines cooperatively at synchronisation granularity (one harness thread plus the interceptor's own goroutines, switching only at blocking operations and explicit yields), so it can neither enumerate the interleavings nor derive happens-before; a lock-discipline (lockset) approximation was designed (DESIGN.md section 5, C10) but not built, and claiming race freedom from it would overstate what is decided. Deadlock on the explored sequential lifecycles is covered under C11; the atomic counter's arithmetic under C15.",
+}
 
 CHECKS["C03"] = dict(
     jobs=[
